@@ -153,11 +153,19 @@ ObjDestroy(o) ==
 (* Function names per slot kind                                                    *)
 CreateFns(o)  == IF o = "A" THEN {"precond_create", "precond_create_f"} ELSE {"solver_create", "solver_create_f"}
 UseFns(o)     == IF o = "A" THEN {"precond_apply", "precond_report"}
-                 ELSE {"solver_solve", "solver_solve_f", "solver_solve_mtx", "solver_solve_mtx_f", "solver_report"}
+                 ELSE {"solver_solve", "solver_solve_f", "solver_solve_mtx", "solver_solve_mtx_f", "solver_report",
+                       "solver_solve_mtx_upd", "solver_solve_mtx_upd_f"}
 DestroyFn(o)  == IF o = "A" THEN "precond_destroy" ELSE "solver_destroy"
-FortranFns    == {"precond_create_f", "solver_create_f", "solver_solve_f", "solver_solve_mtx_f"}
+\* "solver_solve_mtx_upd(_f)" is not a function of the API but a history of the caller: the arrays the
+\* solver was created from are still alive, their VALUES are updated in place (time stepping) and
+\* amgcl_solver_solve_mtx(_f) is called with exactly those three pointers.  The replacement matrix
+\* is then the updated matrix (not the copy the handle made at creation).  Needs a solver created
+\* through the entry point of the same index base.
+UpdFns        == {"solver_solve_mtx_upd", "solver_solve_mtx_upd_f"}
+FortranFns    == {"precond_create_f", "solver_create_f", "solver_solve_f", "solver_solve_mtx_f", "solver_solve_mtx_upd_f"}
 MtxFns        == {"solver_solve_mtx", "solver_solve_mtx_f"}
-ResultFns     == {"precond_apply", "solver_solve", "solver_solve_f", "solver_solve_mtx", "solver_solve_mtx_f"}
+ResultFns     == {"precond_apply", "solver_solve", "solver_solve_f", "solver_solve_mtx", "solver_solve_mtx_f"} \cup UpdFns
+UpdEnabled(o, f) == f \in UpdFns => ob[o].base = (IF f = "solver_solve_mtx_upd_f" THEN 1 ELSE 0)
 SolveFns      == ResultFns \ {"precond_apply"}
 BaseOfFn(f)   == IF f \in FortranFns THEN 1 ELSE 0
 
